@@ -5,6 +5,7 @@ import (
 	"errors"
 	"fmt"
 	"net/http"
+	"net/http/httptest"
 	"sort"
 	"strconv"
 	"strings"
@@ -364,9 +365,13 @@ type recProvider struct {
 	sub     string
 	entries []string
 	called  int
+	warming bool // the warm-up request (see runServe): not recorded
 }
 
 func (p *recProvider) Subscribe(_ context.Context, sub sse.Subscription) error {
+	if p.warming {
+		return nil
+	}
 	p.called++
 	p.lead = p.rec.take()
 	id := "U"
@@ -464,6 +469,9 @@ func runServe(args []string) string {
 		}
 		ncalls := 0
 		srv.OnSession = func(w http.ResponseWriter, _ *http.Request) ([]string, bool) {
+			if prov.warming {
+				return []string{"warm-up-topic"}, true
+			}
 			ncalls++
 			for _, a := range acts {
 				switch {
@@ -484,6 +492,15 @@ func runServe(args []string) string {
 			}
 			return topics, o[0] == "1"
 		}
+	}
+	if (len(args[2])+len(args[4]))%3 == 1 {
+		// the same Server has already served another client, one that presented a Last-Event-ID and got its own
+		// topics: nothing of that request may show in this one
+		prov.warming = true
+		wreq := newRequest()
+		wreq.Header["Last-Event-Id"] = []string{"warm-up-id"}
+		srv.ServeHTTP(httptest.NewRecorder(), wreq)
+		prov.warming = false
 	}
 	srv.ServeHTTP(w, req)
 	tail := rec.take()
